@@ -1916,6 +1916,7 @@ class unyt_array(np.ndarray):
                 else:
                     raise UnitOperationError(ufunc, u0, u1)
             unit_operator = self._ufunc_registry[ufunc]
+            rule_u1 = None
 
             if ufunc in (remainder, fmod, divmod_, hypot) and (
                 u0.base_offset
@@ -2018,9 +2019,9 @@ class unyt_array(np.ndarray):
                         inp1 = np.asarray(inp1, dtype=new_dtype) * conv
                     if ufunc is floor_divide:
                         # the quotient is floored in the units of the first operand
-                        u1 = u0
+                        rule_u1 = u0
             # get the unit of the result
-            mul, unit = unit_operator(u0, u1)
+            mul, unit = unit_operator(u0, rule_u1 if rule_u1 is not None else u1)
             if unit_operator in (_multiply_units, _divide_units):
                 # refuse before evaluating, so that out= is left untouched
                 if (
